@@ -4,6 +4,7 @@ pub mod padding;
 pub mod mux;
 pub mod wirepath;
 pub mod life;
+pub mod hb;
 
 pub fn run(args: &Args, log: &Log) -> Result<(), String> {
     match args.driver.as_str() {
@@ -12,6 +13,7 @@ pub fn run(args: &Args, log: &Log) -> Result<(), String> {
         "mux" => mux::run(args, log),
         "wirepath" => wirepath::run(args, log),
         "life" => life::run(args, log),
+        "hb" => hb::run(args, log),
         d => Err(format!("unknown driver {d}")),
     }
 }
